@@ -113,6 +113,7 @@ pub(crate) fn access_with_integer<Data: GarnishData>(
                     Ok(None)
                 })?
                 .0),
+                GarnishDataType::SymbolList => index_symbol_list(this, value, adjusted_index),
                 t => state_error(format!("Invalid value for slice {:?}", t)),
             }
         }
@@ -291,7 +292,7 @@ pub(crate) fn access_with_symbol<Data: GarnishData>(
                 GarnishDataType::Concatenation => {
                     let mut found = None;
                     iterate_concatenation_mut(this, value, |this, index, addr| {
-                        if index > start && index <= end {
+                        if index >= start && index <= end {
                             // in range
                             // need the latest value, being the value closest to the end for symbol access
                             // check entire concatenation, reassigning found each time we find a match
@@ -309,6 +310,8 @@ pub(crate) fn access_with_symbol<Data: GarnishData>(
 
                     Ok(found)
                 }
+                // slices of text, bytes and symbol lists hold no keyed items, same as the unsliced values
+                GarnishDataType::CharList | GarnishDataType::ByteList | GarnishDataType::SymbolList => Err(RuntimeError::unsupported_types()),
                 t => state_error(format!("Invalid value for slice {:?}", t)),
             }
         }
